@@ -121,7 +121,7 @@ func runProperty(spec *PropSpec, repo, tier string, writeEvidence bool) int {
 	timeout := 20
 	all := false
 	if tier == "thorough" {
-		timeout = 60
+		timeout = 30
 		all = true
 	}
 	var results []*FuncResult
